@@ -138,20 +138,87 @@ class Probe(urwid.Widget):
         return [*super()._repr_words(), f"probe#{self.pid}"]
 
 
+class CursorProbe(Probe):
+    """A probe that also implements the optional cursor protocol of selectable widgets (what Edit and
+    SelectableIcon do): the cursor sits in its top-left cell whenever it has a cell, and the canvas
+    rendered with focus carries the same cursor."""
+
+    @staticmethod
+    def _room(size, nrows):
+        return size[0] > 0 and (size[1] if len(size) == 2 else nrows) > 0
+
+    def render(self, size, focus=False):
+        canv = urwid.CompositeCanvas(super().render(size, focus))
+        if focus and self._room(size, self.nrows):
+            canv.cursor = (0, 0)
+        return canv
+
+    def get_cursor_coords(self, size):
+        return (0, 0) if self._room(size, self.nrows) else None
+
+    def move_cursor_to_coords(self, size, col, row):
+        return True
+
+    def get_pref_col(self, size):
+        return 0
+
+
+DECOS = ("pad", "attr", "adapt")
+
+
+def leaf_spec(spec, pid):
+    """normalised description of a leaf: everything make_leaf needs (so that a twin can be built from it)"""
+    sel = int(bool(spec.get("sel", 0)))
+    deco = []
+    for d in spec.get("deco") or []:
+        if d in DECOS and d not in deco:
+            deco.append(d)
+    return {
+        "pid": pid,
+        "sel": sel,
+        "keys": [k for k in spec.get("keys", []) if k in ALL_KEYS],
+        "rows": min(3, max(1, int(spec.get("rows", 1)))),
+        "cur": int(bool(spec.get("cur", 0)) and sel),
+        "deco": deco,
+        "padl": int(spec.get("padl", 1)) % 3,
+    }
+
+
+def make_leaf(ls, mode, log):
+    """The leaf widget for a slot that needs a flow ("F") or box ("B") widget: a probe, optionally inside the
+    decoration widgets applications put around their leaves - 'adapt': a probe of the OTHER sizing mode made to
+    fit the documented way (Filler around a flow widget, BoxAdapter around a box widget); 'pad': Padding with a
+    left margin of 0..2; 'attr': AttrMap with a focus attribute.  A decoration is selectable exactly when the
+    probe inside is; whether it has the optional cursor methods is up to the decoration class."""
+    adapt = "adapt" in ls["deco"]
+    inner_flow = (mode == "F") != adapt
+    cls = CursorProbe if ls["cur"] else Probe
+    w = cls(ls["pid"], inner_flow, ls["sel"], ls["keys"], ls["rows"], log)
+    if adapt:
+        w = urwid.Filler(w, "top") if mode == "B" else urwid.BoxAdapter(w, ls["rows"])
+    for d in ls["deco"]:
+        if d == "pad":
+            w = urwid.Padding(w, left=ls["padl"])
+        elif d == "attr":
+            w = urwid.AttrMap(w, None, "focus")
+    return w
+
+
 # ---------------------------------------------------------------------------------------------
 # model
 
 
 class Node:
-    __slots__ = ("kind", "mode", "w", "kids", "slot", "pid")
+    __slots__ = ("kind", "mode", "w", "kids", "slot", "pid", "extra")
 
-    def __init__(self, kind, mode, w, kids=None, pid=None):
+    def __init__(self, kind, mode, w, kids=None, pid=None, extra=None):
         self.kind = kind  # p pile cols grid frame over lb
         self.mode = mode  # F or B
         self.w = w
         self.kids = kids  # list (pile/cols/grid/lb), dict (frame), list [bottom, top] (over)
         self.slot = None  # option kind in the parent: w g k (pile/cols)
         self.pid = pid
+        self.extra = extra  # leaf: its normalised spec; overlay: the constructor keywords (for building a twin)
 
     def children(self):
         if self.kind == "p":
@@ -225,15 +292,14 @@ class Harness:
         self.canvas_rows = self.rows
         self.wlist = []
         self.root = None
+        self.drawn_focus = None  # probes drawn with focus=True by the last complete render of the real tree
 
     # ---- building -------------------------------------------------------------------------
     def new_probe(self, spec, mode):
         pid = self.npid
         self.npid += 1
-        keys = [k for k in spec.get("keys", []) if k in ALL_KEYS]
-        rows = min(3, max(1, int(spec.get("rows", 1))))
-        w = Probe(pid, mode == "F", spec.get("sel", 0), keys, rows, self.log)
-        return Node("p", mode, w, None, pid)
+        ls = leaf_spec(spec, pid)
+        return Node("p", mode, make_leaf(ls, mode, self.log), None, pid, ls)
 
     def filler(self, mode):
         return self.new_probe({"k": "p", "sel": 0, "keys": [], "rows": 1}, mode)
@@ -375,15 +441,14 @@ class Harness:
         else:
             width = ("relative", 20 + int(ws[1]) % 81)
         bottom = self.realize(spec.get("bot") or {"k": "p"}, "B")
-        w = urwid.Overlay(
-            top.w,
-            bottom.w,
-            align=["left", "center", "right"][int(spec.get("al", 1)) % 3],
-            width=width,
-            valign=["top", "middle", "bottom"][int(spec.get("va", 1)) % 3],
-            height=height,
-        )
-        return Node("over", "B", w, [bottom, top])
+        kw = {
+            "align": ["left", "center", "right"][int(spec.get("al", 1)) % 3],
+            "width": width,
+            "valign": ["top", "middle", "bottom"][int(spec.get("va", 1)) % 3],
+            "height": height,
+        }
+        w = urwid.Overlay(top.w, bottom.w, **kw)
+        return Node("over", "B", w, [bottom, top], None, kw)
 
     def item_options(self, parent, slot, amt, box):
         if parent.kind == "pile":
@@ -485,6 +550,85 @@ class Harness:
                         extra.add(m.pid)
                     stack.extend(m.children())
         return extra
+
+    # ---- twin: the same tree without a history ------------------------------------------------
+    def twin_of(self, n, tlog, tmap):
+        """A freshly constructed widget with the same children, item options, container parameters and focus
+        positions as ``n.w`` has now (all read through public attributes / the constructor arguments kept from
+        the build), down to probes of its own that log into ``tlog``.  ``tmap``: id(node) -> twin widget."""
+        w = n.w
+        if n.kind == "p":
+            t = make_leaf(n.extra, n.mode, tlog)
+        elif n.kind in ("pile", "cols"):
+            kids = [self.twin_of(k, tlog, tmap) for k in n.kids]
+            items, boxes = [], []
+            for i, (tk, (_w, opt)) in enumerate(zip(kids, w.contents)):
+                items.append(("pack", tk) if opt[0] == urwid.PACK else (opt[0], opt[1], tk))
+                if n.kind == "cols" and opt[2]:
+                    boxes.append(i)
+            fp = w.focus_position if kids else None
+            if n.kind == "pile":
+                t = urwid.Pile(items, focus_item=fp)
+            else:
+                t = urwid.Columns(
+                    items, dividechars=w.dividechars, focus_column=fp, min_width=w.min_width, box_columns=boxes
+                )
+        elif n.kind == "grid":
+            kids = [self.twin_of(k, tlog, tmap) for k in n.kids]
+            fp = w.focus_position if kids else None
+            t = urwid.GridFlow(kids, cell_width=w.cell_width, h_sep=w.h_sep, v_sep=w.v_sep, align=w.align, focus=fp)
+        elif n.kind == "lb":
+            kids = [self.twin_of(k, tlog, tmap) for k in n.kids]
+            t = urwid.ListBox(type(w.body)(kids))
+            if kids:
+                fp = w.focus_position
+                t.body.set_focus(fp)
+                t.set_focus(fp)  # an explicit focus: replaces the 'first selectable' deferral of a new ListBox
+        elif n.kind == "frame":
+            parts = {k: (self.twin_of(v, tlog, tmap) if v is not None else None) for k, v in n.kids.items()}
+            t = urwid.Frame(parts["body"], parts["header"], parts["footer"], focus_part=w.focus_part)
+        else:
+            bottom, top = (self.twin_of(k, tlog, tmap) for k in n.kids)
+            t = urwid.Overlay(top, bottom, **n.extra)
+        tmap[id(n)] = t
+        return t
+
+    def twin_observe(self, key, positions, path):
+        """What a freshly built twin of the current tree does with the same size and key:
+        -> (probes drawn with focus=True, probes offered the key), or None when the comparison does not apply
+        (counted).  Input and focus rendering "follow the focus path": two trees with the same children, options,
+        focus positions and size have the same focus path, so they must agree in both - whatever calls the
+        real tree has seen before."""
+        if any(n.kind == "lb" and getattr(n.w, "set_focus_pending", None) == "first selectable" for n in path):
+            # a never-drawn ListBox on the path still owes its documented first-selectable choice
+            self.count("twin:skip:listbox-never-drawn")
+            return None
+        tlog, tmap = [], {}
+        troot = self.twin_of(self.root, tlog, tmap)
+        for n in self.containers():
+            if bool(n.w.selectable()) != bool(tmap[id(n)].selectable()):
+                # the containers cache selectable(); the property does not say when a change further down
+                # propagates upwards (see "Readings"), so a tree whose cached answers lag is not compared
+                self.count("twin:skip:selectable-cache-lags")
+                return None
+        if troot.get_focus_path() != positions:
+            self.count("twin:skip:focus-path-not-reproduced")
+            return None
+        size = self.size()
+        try:
+            troot.render(size, True)
+            drawn = {e[1] for e in tlog if e[0] == "render" and e[2]}
+            del tlog[:]
+            troot.keypress(size, key)
+        except Exception as e:  # noqa: BLE001
+            if not innermost_is_urwid(e):
+                raise
+            # a fresh tree failing is the business of the clauses above (initial trees are checked like any other)
+            self.count("twin:skip:exception")
+            return None
+        self.check_warnings()
+        self.count("twin:compared")
+        return drawn, {e[1] for e in tlog if e[0] == "key"}
 
     # ---- reporting ------------------------------------------------------------------------
     def report(self, v):
@@ -645,6 +789,7 @@ class Harness:
 
     def render_check(self):
         size = self.size()
+        self.drawn_focus = None
         # 1st render settles deferred ListBox focus changes (they are applied when a size is known)
         ok, _ = self.guarded(lambda: self.render(size), "render")
         if not ok:
@@ -661,7 +806,8 @@ class Harness:
             stat("discard:canvas-size-mismatch")
             raise Discard()
         self.canvas_rows = canv.rows()
-        bad = sorted({e[1] for e in self.log if e[0] == "render" and e[2]} - allowed)
+        self.drawn_focus = {e[1] for e in self.log if e[0] == "render" and e[2]}
+        bad = sorted(self.drawn_focus - allowed)
         if bad:
             self.report(
                 Violation(
@@ -686,15 +832,35 @@ class Harness:
         if key not in ALL_KEYS or not root.selectable():
             self.count("key:not-sent")
             return
-        _positions, path = self.focus_walk()
+        positions, path = self.focus_walk()
         allowed = {n.pid for n in path if n.kind == "p"} | self._lb_pending(path)
         before = [(n, n.w.focus) for n in self.containers() if n.kind in ("pile", "cols", "grid")]
+        twin = self.twin_observe(key, positions, path) if self.drawn_focus is not None else None
         del self.log[:]
         ok, r = self.guarded(lambda: root.keypress(self.size(), key), "keypress")
         if not ok:
             return
         klog = [e for e in self.log if e[0] == "key"]
         got = sorted({e[1] for e in klog})
+        if twin is not None:
+            if twin[0] != self.drawn_focus:
+                self.report(
+                    Violation(
+                        "history-independent-focus-rendering",
+                        f"focus path {positions!r}, size {self.size()!r}: the tree drew probes {sorted(self.drawn_focus)} "
+                        f"with focus=True; a freshly built tree with the same children, options and focus "
+                        f"positions draws {sorted(twin[0])}",
+                    )
+                )
+            if twin[1] != set(got):
+                self.report(
+                    Violation(
+                        "history-independent-key-routing",
+                        f"focus path {positions!r}, size {self.size()!r}: key {key!r} was offered to probes {got}; "
+                        f"a freshly built tree with the same children, options and focus positions offers it to "
+                        f"{sorted(twin[1])}",
+                    )
+                )
         if not set(got) <= allowed:
             self.report(
                 Violation(
@@ -1187,8 +1353,17 @@ SUBS = {"ops": check_ops}
 # strategies
 
 _keys = st.lists(st.sampled_from(ALL_KEYS), max_size=3, unique=True)
+_deco = st.sampled_from([[], [], [], [], ["pad"], ["attr"], ["adapt"], ["pad", "attr"], ["attr", "pad"], ["adapt", "pad"]])
 _probe = st.fixed_dictionaries(
-    {"k": st.just("p"), "sel": st.sampled_from([1, 1, 1, 0]), "keys": _keys, "rows": st.sampled_from([1, 1, 2])}
+    {
+        "k": st.just("p"),
+        "sel": st.sampled_from([1, 1, 1, 0]),
+        "keys": _keys,
+        "rows": st.sampled_from([1, 1, 2]),
+        "cur": st.sampled_from([0, 0, 1]),
+        "deco": _deco,
+        "padl": st.integers(0, 2),
+    }
 )
 _w = st.integers(1, 3).map(lambda n: ["w", n])
 _g = st.integers(1, 4).map(lambda n: ["g", n])
@@ -1453,6 +1628,123 @@ def _sweep_classify(case):
     ]
 
 
+# ---- sweep 2: every arrow key at every two-level nest --------------------------------------------------------
+
+ENTRY_DECOS = ([], ["pad"], ["attr"], ["adapt"])
+ARROW_KEYS = ("up", "down", "left", "right")
+
+
+def _leaf_variants():
+    """every kind of leaf: unselectable / selectable / selectable with the cursor protocol x bare or inside one
+    decoration (Padding, AttrMap, sizing-mode adapter); none handles a key"""
+    out = []
+    for sel, cur in ((0, 0), (1, 0), (1, 1)):
+        for deco in ENTRY_DECOS:
+            out.append({"k": "p", "sel": sel, "keys": [], "rows": 1, "cur": cur, "deco": list(deco), "padl": 1})
+    return out
+
+
+def _listlike_spec(kind, items, focus):
+    """a list-like container of the given leaf/sub-container specs, every child with the default option"""
+    if kind == "pile":
+        return {"k": "pile", "c": [{"o": ["w", 1], "n": n} for n in items], "focus": focus}
+    if kind == "cols":
+        return {"k": "cols", "c": [{"o": ["w", 1], "box": 0, "n": n} for n in items], "div": 0, "focus": focus}
+    if kind == "grid":
+        return {"k": "grid", "c": [{"n": n} for n in items], "cw": 1, "hs": 0, "vs": 0, "al": 0, "focus": focus}
+    return {"k": "lb", "c": [{"n": n} for n in items], "walker": kind[-1], "focus": focus}
+
+
+def entry_sweep_cases(max_n, outers=("pile", "cols", "lb-s", "lb-f")):
+    """Every two-level nest: outer Pile / Columns / ListBox (over the given walkers) holding one plain selectable leaf
+    (bare or with the cursor protocol) that has the focus and, before or after it, an inner Pile / Columns /
+    GridFlow of 1..max_n leaves, over every tuple of leaf variants (see _leaf_variants), x every arrow key.  The
+    inner container is built without a focus argument (the constructors pick the first selectable child)."""
+    import itertools
+
+    variants = _leaf_variants()
+    for outer in outers:
+        mode = "B" if outer.startswith("lb") else "F"
+        for inner in ("pile", "cols", "grid"):
+            for n in range(1, max_n + 1):
+                for leaves in itertools.product(variants, repeat=n):
+                    inner_spec = _listlike_spec(inner, [dict(x) for x in leaves], None)
+                    for scur in (0, 1):
+                        sib = {"k": "p", "sel": 1, "keys": [], "rows": 1, "cur": scur, "deco": [], "padl": 0}
+                        for first in (0, 1):
+                            items = [sib, inner_spec] if first == 0 else [inner_spec, sib]
+                            tree = _listlike_spec(outer, items, first)
+                            for key in ARROW_KEYS:
+                                yield {"tree": tree, "mode": mode, "size": [12, 6], "ops": [["key", key]]}
+
+
+def _entry_nontrivial(case):
+    """the inner container has a selectable and an unselectable child, or a decorated one"""
+    inner = [it["n"] for it in case["tree"]["c"] if it["n"]["k"] != "p"][0]
+    leaves = [it["n"] for it in inner["c"]]
+    return len({x["sel"] for x in leaves}) == 2 or any(x["deco"] for x in leaves)
+
+
+def _entry_classify(case):
+    inner = [it["n"] for it in case["tree"]["c"] if it["n"]["k"] != "p"][0]
+    out = [f"entry:{case['tree']['k']}>{inner['k']}:n={len(inner['c'])}"]
+    out += [f"entry:leaf:sel={x['sel']}:cur={x['cur']}:deco={'+'.join(x['deco']) or '-'}" for x in (it["n"] for it in inner["c"])]
+    return sorted(set(out))
+
+
+# ---- sweep 3: focus changes in a container that is too small to show all of its children -------------------------
+
+
+def overfull_sweep_cases(max_n):
+    """Every list-like container kind at a size that cannot show all of its 2..max_n children (box Columns and
+    flow Columns of ('given', 3) columns in 7 or 4 cells, box Pile of ('given', 2) rows in 3 or 2 rows, GridFlow
+    whose cells wrap, ListBox over either walker with more rows than fit), built with focus f0, then
+    (a) focus := f1 ; a character ; focus := f2 ; a character - for every (f0, f1, f2), the focus being written
+        by assignment or by set_focus_path, or
+    (b) k times the same arrow key along the container's axis (k = 1..n-1, both directions), then a character."""
+    shapes = (
+        ("cols", "B", ["g", 3]),
+        ("cols", "F", ["g", 3]),
+        ("pile", "B", ["g", 2]),
+        ("grid", "F", None),
+        ("lb-s", "B", None),
+        ("lb-f", "B", None),
+    )
+    for kind, mode, opt in shapes:
+        axis = ("left", "right") if kind in ("cols", "grid") else ("up", "down")
+        for n in range(2, max_n + 1):
+            leaves = [{"k": "p", "sel": int(i != 1), "keys": ["x"], "rows": 1, "cur": int(i == 2)} for i in range(n)]
+            for size in ([7, 3], [4, 2]):
+                for f0 in range(n):
+                    tree = _listlike_spec(kind, leaves, f0)
+                    if opt is not None:
+                        for it in tree["c"]:
+                            it["o"] = list(opt)
+                    for f1 in range(n):
+                        for f2 in range(n):
+                            for how in (0, 1):
+                                w1 = ["focus", 0, ["v", f1]] if how == 0 else ["path", 0, [f1], 0]
+                                w2 = ["focus", 0, ["v", f2]] if how == 0 else ["path", 0, [f2], 0]
+                                yield {"tree": tree, "mode": mode, "size": size, "ops": [w1, ["key", "x"], w2, ["key", "x"]]}
+                    for key in axis:
+                        for k in range(1, n):
+                            yield {"tree": tree, "mode": mode, "size": size, "ops": [["key", key]] * k + [["key", "x"]]}
+
+
+def _overfull_nontrivial(case):
+    """the focus is moved at least once"""
+    ops = case["ops"]
+    if ops[0][0] == "key":
+        return True
+    pos = [op[2][1] if op[0] == "focus" else op[2][0] for op in ops if op[0] != "key"]
+    return pos[0] != case["tree"]["focus"] or pos[1] != pos[0]
+
+
+def _overfull_classify(case):
+    how = {"focus": "assign", "path": "set_focus_path", "key": "arrows"}[case["ops"][0][0]]
+    return [f"overfull:{case['tree']['k']}:{case['mode']}:n={len(case['tree']['c'])}", f"overfull:by:{how}"]
+
+
 def shard(ctx):
     depth = ctx.scale(3, 4)
     max_ops = ctx.scale(30, 60)
@@ -1462,6 +1754,24 @@ def shard(ctx):
         nontrivial=_sweep_nontrivial,
         classify=_sweep_classify,
         exhaustive_name="every slice spelling x focus x list-like container with <= %d children" % ctx.scale(4, 6),
+    )
+    if ctx.failure is not None:
+        return
+    ctx.sweep(
+        "ops",
+        entry_sweep_cases(ctx.scale(2, 3), ctx.scale(("pile", "cols", "lb-s"), ("pile", "cols", "lb-s", "lb-f"))),
+        nontrivial=_entry_nontrivial,
+        classify=_entry_classify,
+        exhaustive_name="every arrow key x two-level nest x inner container of <= %d leaves over all leaf variants" % ctx.scale(2, 3),
+    )
+    if ctx.failure is not None:
+        return
+    ctx.sweep(
+        "ops",
+        overfull_sweep_cases(ctx.scale(5, 6)),
+        nontrivial=_overfull_nontrivial,
+        classify=_overfull_classify,
+        exhaustive_name="every pair of focus changes x list-like container too small for its <= %d children" % ctx.scale(5, 6),
     )
     if ctx.failure is not None:
         return
